@@ -1897,16 +1897,15 @@ namespace chaiscript {
             }
             has_matches = false;
             if (Keyword("else")) {
-              if (If()) {
-                has_matches = true;
-              } else {
+              // an `if` has at most one else branch (an `else if` is that branch and parses its own
+              // else); a second `else` must not be folded into this node
+              if (!If()) {
                 while (Eol()) {
                 }
 
                 if (!Block()) {
                   throw exception::eval_error("Incomplete 'else' block", File_Position(m_position.line, m_position.col), *m_filename);
                 }
-                has_matches = true;
               }
             }
           }
